@@ -151,14 +151,21 @@ def check(ctx):
         ctx.require_at("R05-b", exit_, unc[0][0], [["self._cancel_called", "not self._parent_cancellation_is_visible_to_us"]],
                        instance="uncancel only when this scope absorbs (no outer cancellation visible)")
     zero = F("self._pending_uncancellations")
+    SAMEHOST = "self._parent_scope._host_task is self._host_task"
+    SAMEHOST_F = F("not " + SAMEHOST)
+    # a unit of the counter stands for one cancel() made on *this scope's host task* (see the increment rule above): it may only be
+    # settled by uncancel() on that task, hence handed over only to a parent scope hosted by the same task (the parent of a child
+    # task's outermost scope is the task group's scope, which belongs to the parent task)
+    for st_, _ in ctx.sites(exit_, "self._parent_scope._pending_uncancellations += self._pending_uncancellations"):
+        ctx.require_at("R05-b", exit_, st_, [[SAMEHOST]], instance="uncancel count handed over only to a parent scope hosted by the same task", what="transfer")
 
     def step_t(st, e, c):
         if c.is_exc:
             return st
         if e == "transfer":
             return True
-        if e == "zero" and not st:
-            return Bad("the uncancel counter is zeroed without having been transferred to the parent: the host task keeps a cancellation request count it can never shed")
+        if e == "zero" and not st and SAMEHOST_F not in c.facts_before and SAMEHOST_F not in c.facts:
+            return Bad("the uncancel counter is zeroed without having been transferred to a parent scope of the same task: the host task keeps a cancellation request count it can never shed")
         return st
 
     def at_exit_t(kind, st, facts):
